@@ -70,7 +70,10 @@ package announce
 // a list element whose value is k, and every list element is cache[its value]),
 // sizes agree, and the capacity is respected. The recency order is the rank of
 // the list elements (container/list contracts in /verif/extern/list.spec).
-//@ spec func lruOK(l val) bool = l != nil && l.cache != nil && l.ll != nil && l.max >= 1 && g_size(l.ll) <= l.max && g_size(l.ll) == len(l.cache) && all(k, has(l.cache, k) ==> l.cache[k] != nil && g_in(l.cache[k]) == l.ll && g_val(l.cache[k]) == k) && all(e, e != 0 && g_in(e) == l.ll ==> has(l.cache, g_val(e)) && l.cache[g_val(e)] == e && typeis(as(e, "*list.Element").Value, "string") && payload(as(e, "*list.Element").Value) == g_val(e))
+//@ spec func lruA(l val) bool = l != nil && l.cache != nil && l.ll != nil && l.max >= 1 && g_size(l.ll) <= l.max && g_size(l.ll) == len(l.cache)
+//@ spec func lruB(l val) bool = all(k, has(l.cache, k) ==> l.cache[k] != nil && g_in(l.cache[k]) == l.ll && g_val(l.cache[k]) == k)
+//@ spec func lruC(l val) bool = all(e, e != 0 && g_in(e) == l.ll ==> has(l.cache, g_val(e)) && l.cache[g_val(e)] == e && g_rank(e) <= g_top(l.ll) && typeis(as(e, "*list.Element").Value, "string") && payload(as(e, "*list.Element").Value) == g_val(e))
+//@ spec func lruOK(l val) bool = lruA(l) && lruB(l) && lruC(l)
 
 //@ func newStringLRU
 //@   property C09
@@ -92,7 +95,9 @@ package announce
 //@   property C09
 //@   requires lruOK(l)
 //@   modifies state(l)
-//@   ensures lruOK(l)
+//@   ensures lruA(l)
+//@   ensures lruB(l)
+//@   ensures lruC(l)
 //@   ensures result <==> old(has(l.cache, s))
 //@   ensures has(l.cache, s) && g_rank(l.cache[s]) == g_top(l.ll)
 //@   ensures all(e, e != 0 && e != l.cache[s] && g_in(e) == l.ll ==> g_rank(e) == old(g_rank(e)) && g_rank(e) < g_top(l.ll))
